@@ -44,42 +44,44 @@ Qed.
 Lemma expr_followb_ws_closer (s : str) c (r : str) : forallb is_ws s = true -> closer c ->
   expr_followb (s ++ c :: r) = true.
 Proof.
-  intros Hs Hc. unfold expr_followb. apply followb_ws_then; [exact Hs | destruct Hc as [->| ->]; reflexivity | | destruct Hc as [->| ->]; reflexivity].
-  intros d Hd _. pose proof (ws_plain d Hd) as P. plain_split P.
-  apply negb_true_iff in P, P6. rewrite P, P6. reflexivity.
+  intros Hs Hc. unfold expr_followb. apply andb_true_iff. split.
+  - apply followb_ws_then; [exact Hs | destruct Hc as [->| ->]; reflexivity | | destruct Hc as [->| ->]; reflexivity].
+    intros d Hd _. pose proof (ws_plain d Hd) as P. plain_split P.
+    apply negb_true_iff in P, P6. rewrite P, P6. reflexivity.
+  - apply naked_stopb_ws_then; [exact Hs | destruct Hc as [->| ->]; reflexivity].
 Qed.
 
 Lemma expr_followb_name k : expr_followb k = true -> name_followb k = true.
 Proof.
-  unfold expr_followb, name_followb. destruct (snd (span is_hsp k)) as [|c t]; [reflexivity|].
-  cbn [stopsb]. intro H. apply negb_true_iff in H. apply orb_false_iff in H as [H _]. rewrite H. reflexivity.
-Qed.
-
-Lemma hsp_run_ws (w : str) : forallb is_hsp w = true -> forallb is_ws w = true.
-Proof.
-  induction w as [|c w IH]; [reflexivity|]. cbn [forallb]. intro H. apply andb_true_iff in H as [Hc Hw].
-  rewrite (hsp_is_ws c Hc), (IH Hw). reflexivity.
+  unfold expr_followb, name_followb. intro H. apply andb_true_iff in H as [H N0]. apply andb_true_iff. split; [|exact N0].
+  destruct (snd (span is_hsp k)) as [|c t]; [reflexivity|].
+  cbn [stopsb] in *. apply negb_true_iff in H. apply orb_false_iff in H as [H _]. rewrite H. reflexivity.
 Qed.
 
 (** ** Heads of printed expressions *)
-Lemma print_name_head nm : name_ok nm = true -> exists c r, print_name nm = c :: r /\ opener c.
+Lemma print_name_head nm : name_ok nm = true -> exists c r, print_name nm = c :: r /\ seg_head c.
 Proof.
-  intro H. unfold name_ok in H. apply andb_true_iff in H as [Hf _].
-  destruct (print_seg_head (nm_first nm) Hf) as [c [r [E Hc]]]. unfold print_name. rewrite E.
+  intro H. unfold name_ok in H. apply andb_true_iff in H as [H _]. apply andb_true_iff in H as [Hf _].
+  destruct (print_seg_head (nm_first nm) Hf) as [c [r [E [Hc _]]]]. unfold print_name. rewrite E.
   exists c, (r ++ print_more (nm_more nm)). split; [reflexivity | exact Hc].
 Qed.
+
+Lemma print_name_head_op nm : name_ok nm = true -> is_naked (nm_first nm) = false ->
+  exists c r, print_name nm = c :: r /\ opener c.
+Proof.
+  intros H Hn. unfold name_ok in H. apply andb_true_iff in H as [H _]. apply andb_true_iff in H as [Hf _].
+  destruct (print_seg_head (nm_first nm) Hf) as [c [r [E [_ Hc]]]]. unfold print_name. rewrite E.
+  exists c, (r ++ print_more (nm_more nm)). split; [reflexivity | exact (Hc Hn)].
+Qed.
+
+Lemma seg_head_expr c : seg_head c -> opener c \/ naked_edge c = true \/ c = 40.
+Proof. intros [H|[H|[H|H]]]; [left; left | left; right; left | left; right; right | right; left]; exact H. Qed.
 
 (** First character of an expression: an opener, a digit or "(". *)
 Definition expr_head (c : N) : Prop := opener c \/ naked_edge c = true \/ c = 40.
 
 Lemma digit_edge0 c : is_digit c = true -> naked_edge c = true.
 Proof. intro H. destruct (digit_cases c H) as [->|[->|[->|[->|[->|[->|[->|[->|[->| ->]]]]]]]]]; reflexivity. Qed.
-
-Lemma naked_textb_text (A : str) : naked_textb A = true -> naked_text A.
-Proof.
-  unfold naked_textb. destruct A as [|c0 A']; [discriminate|]. intro H. apply andb_true_iff in H as [H Hl].
-  apply andb_true_iff in H as [He Hm]. apply negb_true_iff in Hl. exists c0, A'. repeat split; assumption.
-Qed.
 
 Lemma print_amt_head am : amt_ok am = true -> exists c r, print_amt am = c :: r /\ expr_head c.
 Proof.
@@ -94,13 +96,13 @@ Qed.
 Lemma print_expr_head e : expr_ok e = true -> exists c r, print_expr e = c :: r /\ expr_head c.
 Proof.
   destruct e as [[[am w]|] nm | nm w s0 first more trail s1 | s0 e acts s1]; cbn [expr_ok print_expr]; intro H.
-  - apply andb_true_iff in H as [H _]. apply andb_true_iff in H as [H _].
+  - do 3 (apply andb_true_iff in H as [H _]).
     destruct (print_amt_head am H) as [c [r [E Hc]]]. rewrite E.
     exists c, ((r ++ w) ++ print_name nm). split; [reflexivity | exact Hc].
   - apply andb_true_iff in H as [H _]. destruct (print_name_head nm H) as [c [r [E Hc]]]. rewrite E.
-    exists c, r. split; [reflexivity | left; exact Hc].
+    exists c, r. split; [reflexivity | exact (seg_head_expr c Hc)].
   - do 6 (apply andb_true_iff in H as [H _]). destruct (print_name_head nm H) as [c [r [E Hc]]]. rewrite E.
-    eexists c, _. split; [reflexivity | left; exact Hc].
+    eexists c, _. split; [reflexivity | exact (seg_head_expr c Hc)].
   - eexists 40, _. split; [reflexivity | right; right; reflexivity].
 Qed.
 
@@ -116,6 +118,339 @@ Proof.
   exact (expr_head_not_ws c Hc).
 Qed.
 
+(** ** Locality of the keyword scanners: what they do on a naked chunk [X]
+    followed by [F] depends on [F] only through the fact that [F] does not
+    start (after horizontal space) with a word character. *)
+Definition inertF (F : str) : Prop := match F with [] => True | c :: _ => Units.is_word c = false end.
+Definition inertF2 (F : str) : Prop := inertF (snd (span is_hsp F)).
+
+Lemma inertF2_inertF F : inertF2 F -> inertF F.
+Proof.
+  unfold inertF2. destruct F as [|c t]; [trivial|]. destruct (is_hsp c) eqn:E.
+  - intros _. exact (not_word_hsp c E).
+  - rewrite (span_cons_false is_hsp c t E). trivial.
+Qed.
+
+Definition wordsb (w : str) : bool := forallb (fun a => forallb Units.is_word (Units.ci_class a)) w.
+
+Lemma lm_word a c : forallb Units.is_word (Units.ci_class a) = true -> Units.lit_match_with true a c = true ->
+  Units.is_word c = true.
+Proof.
+  intros Hw H. unfold Units.lit_match_with in H. apply UnitsScan.memN_In in H. rewrite forallb_forall in Hw. exact (Hw c H).
+Qed.
+
+Lemma match_ci_word w : forall (x m r : str), Units.match_ci_lit w x = Some (m, r) -> UnitsTail.ci_word w m /\ x = m ++ r.
+Proof.
+  induction w as [|a w IH]; intros x m r H; cbn [Units.match_ci_lit] in H.
+  - inversion H; subst. split; [constructor | reflexivity].
+  - destruct x as [|c t]; [discriminate|]. destruct (Units.lit_match_with true a c) eqn:E; [|discriminate].
+    destruct (Units.match_ci_lit w t) as [[m' r']|] eqn:E2; [|discriminate]. inversion H; subst.
+    destruct (IH t m' r E2) as [W X]. split; [constructor; assumption | rewrite X; reflexivity].
+Qed.
+
+Lemma match_ci_local w : wordsb w = true -> forall (X F m r : str), inertF F ->
+  Units.match_ci_lit w (X ++ F) = Some (m, r) -> exists X2, X = m ++ X2 /\ r = X2 ++ F.
+Proof.
+  induction w as [|a w IH]; intros Hw X F m r HF H; cbn [Units.match_ci_lit] in H.
+  - inversion H; subst. exists X. split; reflexivity.
+  - cbn [wordsb forallb] in Hw. apply andb_true_iff in Hw as [Ha Hw].
+    destruct X as [|c X'].
+    + cbn [app] in H. destruct F as [|c t]; [discriminate|]. cbn [inertF] in HF.
+      destruct (Units.lit_match_with true a c) eqn:E; [|discriminate]. rewrite (lm_word a c Ha E) in HF. discriminate.
+    + cbn [app] in H. destruct (Units.lit_match_with true a c) eqn:E; [|discriminate].
+      destruct (Units.match_ci_lit w (X' ++ F)) as [[m' r']|] eqn:E2; [|discriminate]. inversion H; subst.
+      destruct (IH Hw X' F m' r HF E2) as [X2 [EX Er]]. exists X2. split; [rewrite EX; reflexivity | exact Er].
+Qed.
+
+Lemma inertF_opt F : inertF F -> Units.opt_word (hd_error F) = false.
+Proof. destruct F as [|c t]; [reflexivity|]. cbn [inertF hd_error Units.opt_word]. intro H. exact H. Qed.
+
+Lemma word_end_local (m X2 F G : str) : inertF F -> inertF G -> word_end_ok m (X2 ++ F) = word_end_ok m (X2 ++ G).
+Proof.
+  intros HF HG. unfold word_end_ok. destruct X2 as [|c t]; [|reflexivity]. cbn [app]. unfold Units.word_boundary.
+  rewrite (inertF_opt F HF), (inertF_opt G HG). reflexivity.
+Qed.
+
+(** [None] on the probe [G] gives [None] on [F]. *)
+Lemma wb_transfer w (X F G : str) : wordsb w = true -> inertF F -> inertF G ->
+  with_boundary (Units.match_ci_lit w (X ++ G)) = None -> with_boundary (Units.match_ci_lit w (X ++ F)) = None.
+Proof.
+  intros Hw HF HG H. destruct (Units.match_ci_lit w (X ++ F)) as [[m r]|] eqn:E; [|reflexivity].
+  destruct (match_ci_local w Hw X F m r HF E) as [X2 [EX Er]]. destruct (match_ci_word w _ _ _ E) as [W _].
+  subst X r. rewrite <- app_assoc in H. rewrite (UnitsTail.match_ci_lit_complete w m W (X2 ++ G)) in H.
+  unfold with_boundary in *. rewrite (word_end_local m X2 F G HF HG). destruct (word_end_ok m (X2 ++ G)); [discriminate H | reflexivity].
+Qed.
+
+Lemma span_app_left p (X2 F w X3 : str) : span p X2 = (w, X3) -> X3 <> [] -> span p (X2 ++ F) = (w, X3 ++ F).
+Proof.
+  revert w X3. induction X2 as [|c t IH]; intros w X3 H Hn.
+  - unfold span in H. cbn [Units.span] in H. inversion H; subst. contradiction.
+  - destruct (p c) eqn:E.
+    + rewrite (span_cons_true p c t E) in H. inversion H; subst. cbn [app].
+      rewrite (span_cons_true p c (t ++ F) E). rewrite (IH (fst (span p t)) (snd (span p t))); [reflexivity | destruct (span p t); reflexivity | exact Hn].
+    + rewrite (span_cons_false p c t E) in H. inversion H; subst. cbn [app]. rewrite (span_cons_false p c (t ++ F) E). reflexivity.
+Qed.
+
+Lemma last_app_r {A} (x y : list A) d : y <> [] -> last (x ++ y) d = last y d.
+Proof.
+  intro Hy. induction x as [|a x IH]; [reflexivity|]. cbn [app]. destruct (x ++ y) eqn:E.
+  - apply app_eq_nil in E as [_ E]. contradiction.
+  - cbn [last]. exact IH.
+Qed.
+
+Lemma span_hsp_nonempty_rest (X2 : str) : X2 <> [] -> is_ws (last X2 0) = false -> snd (span is_hsp X2) <> [].
+Proof.
+  intros Hn Hl. destruct (span is_hsp X2) as [w X3] eqn:E. destruct (span_spec _ _ _ _ E) as [EX Hw]. cbn [snd].
+  intro H0. subst X3. rewrite app_nil_r in EX. subst X2.
+  destruct (exists_last Hn) as [Y [e EY]]. rewrite EY in *. rewrite last_last in Hl.
+  rewrite forallb_app in Hw. apply andb_true_iff in Hw as [_ He]. cbn [forallb] in He. apply andb_true_iff in He as [He _].
+  rewrite (hsp_is_ws e He) in Hl. discriminate.
+Qed.
+
+Lemma kw_words : wordsb (s "remaining") = true /\ wordsb (s "remainder") = true /\ wordsb (s "rest") = true /\
+  wordsb (s "left") = true /\ wordsb (s "over") = true /\ wordsb [111; 102] = true /\ wordsb [116; 104; 101] = true.
+Proof. vm_compute. repeat split; reflexivity. Qed.
+
+Lemma left_over_transfer (X F G : str) : X <> [] -> is_ws (last X 0) = false -> inertF2 F -> inertF G ->
+  with_boundary (sc_left_over (X ++ G)) = None -> with_boundary (sc_left_over (X ++ F)) = None.
+Proof.
+  intros Hn Hl HF2 HG H. pose proof (inertF2_inertF F HF2) as HF.
+  destruct kw_words as [_ [_ [_ [Wl [Wo _]]]]].
+  destruct (sc_left_over (X ++ F)) as [[m r]|] eqn:E; [|reflexivity].
+  unfold sc_left_over in E. destruct (Units.match_ci_lit (s "left") (X ++ F)) as [[m1 r1]|] eqn:E1; [|discriminate].
+  destruct (match_ci_local _ Wl X F m1 r1 HF E1) as [X2 [EX Er]]. destruct (match_ci_word _ _ _ _ E1) as [W1 _]. subst r1.
+  destruct (span is_hsp (X2 ++ F)) as [w r2] eqn:Es.
+  destruct (Units.match_ci_lit (s "over") r2) as [[m2 r3]|] eqn:E2; [|discriminate]. inversion E; subst m r. clear E.
+  destruct (match_ci_word _ _ _ _ E2) as [W2 _].
+  destruct X2 as [|c2 X2'].
+  - (* "left" is all of X: what follows horizontal space in F is no word *)
+    exfalso. cbn [app] in Es. unfold inertF2 in HF2. rewrite Es in HF2. cbn [snd] in HF2.
+    destruct (match_ci_local _ Wo [] r2 m2 r3 HF2 E2) as [X2' [EX' _]].
+    symmetry in EX'. apply app_eq_nil in EX' as [EX' _]. subst m2. inversion W2.
+  - assert (Hl2 : is_ws (last (c2 :: X2') 0) = false) by (rewrite EX in Hl; rewrite last_app_r in Hl by discriminate; exact Hl).
+    pose proof (span_hsp_nonempty_rest (c2 :: X2') ltac:(discriminate) Hl2) as Hne.
+    destruct (span is_hsp (c2 :: X2')) as [w' X3] eqn:Es'. cbn [snd] in Hne.
+    rewrite (span_app_left is_hsp _ F w' X3 Es' Hne) in Es. inversion Es; subst w r2.
+    destruct (match_ci_local _ Wo X3 F m2 r3 HF E2) as [X4 [EX3 Er3]]. subst X3 r3.
+    (* the same happens on the probe *)
+    unfold sc_left_over in H. rewrite EX in H. rewrite <- app_assoc in H.
+    rewrite (UnitsTail.match_ci_lit_complete _ m1 W1 ((c2 :: X2') ++ G)) in H.
+    rewrite (span_app_left is_hsp _ G w' (m2 ++ X4) Es' Hne) in H. rewrite <- app_assoc in H.
+    rewrite (UnitsTail.match_ci_lit_complete _ m2 W2 (X4 ++ G)) in H.
+    unfold with_boundary in *. rewrite (word_end_local _ X4 F G HF HG).
+    destruct (word_end_ok (m1 ++ w' ++ m2) (X4 ++ G)); [discriminate H | reflexivity].
+Qed.
+
+Lemma first_some_none {A} (a b : option A) : first_some a b = None -> a = None /\ b = None.
+Proof. destruct a; [discriminate | intro H; split; [reflexivity | exact H]]. Qed.
+
+(** No remainder word on the probe [X ++ ","] : none on [X ++ F]. *)
+Lemma sc_remainder_local (X F : str) : X <> [] -> is_ws (last X 0) = false -> inertF2 F ->
+  sc_remainder (X ++ [44]) = None -> sc_remainder (X ++ F) = None.
+Proof.
+  intros Hn Hl HF2 H. pose proof (inertF2_inertF F HF2) as HF.
+  assert (HG : inertF [44]) by reflexivity.
+  destruct kw_words as [W0 [W1 [W2 _]]].
+  unfold sc_remainder in *. apply first_some_none in H as [H0 H]. apply first_some_none in H as [H1 H].
+  apply first_some_none in H as [H2 H3].
+  rewrite (wb_transfer _ X F [44] W0 HF HG H0), (wb_transfer _ X F [44] W1 HF HG H1), (wb_transfer _ X F [44] W2 HF HG H2).
+  cbn [first_some]. exact (left_over_transfer X F [44] Hn Hl HF2 HG H3).
+Qed.
+
+(** No preposition on the probe: none on [X ++ F]. *)
+Lemma hsp_local (X2 F : str) : X2 <> [] -> is_ws (last X2 0) = false ->
+  Units.hsp (X2 ++ F) = match Units.hsp X2 with Some (w, X3) => Some (w, X3 ++ F) | None => None end
+  /\ (forall w X3, Units.hsp X2 = Some (w, X3) -> X3 <> [] /\ is_ws (last X3 0) = false).
+Proof.
+  intros Hn Hl. pose proof (span_hsp_nonempty_rest X2 Hn Hl) as Hne.
+  unfold Units.hsp. change (Units.span Units.is_hsp) with (span is_hsp).
+  destruct (span is_hsp X2) as [w X3] eqn:Es. cbn [snd] in Hne.
+  rewrite (span_app_left is_hsp X2 F w X3 Es Hne). split.
+  - destruct w; reflexivity.
+  - intros w0 X30 H. destruct w; [discriminate H|]. inversion H; subst. split; [exact Hne|].
+    destruct (span_spec _ _ _ _ Es) as [EX _]. rewrite EX in Hl. rewrite last_app_r in Hl by exact Hne. exact Hl.
+Qed.
+
+Lemma preposition_local (X F : str) : X <> [] -> is_ws (last X 0) = false -> inertF2 F ->
+  Units.preposition (X ++ [44]) = None -> Units.preposition (X ++ F) = None.
+Proof.
+  intros Hn Hl HF2 H. pose proof (inertF2_inertF F HF2) as HF. assert (HG : inertF [44]) by reflexivity.
+  destruct kw_words as [_ [_ [_ [_ [_ [Wof Wthe]]]]]].
+  unfold Units.preposition in *.
+  destruct (Units.match_ci_lit [111; 102] (X ++ F)) as [[m1 r1]|] eqn:E1; [|reflexivity].
+  destruct (match_ci_local _ Wof X F m1 r1 HF E1) as [X2 [EX Er]]. destruct (match_ci_word _ _ _ _ E1) as [W1 _]. subst r1.
+  rewrite EX in H. rewrite <- app_assoc in H. rewrite (UnitsTail.match_ci_lit_complete _ m1 W1 (X2 ++ [44])) in H.
+  (* the fallback boundary is the same on both sides *)
+  assert (Hb : Units.word_boundary (Units.last_opt m1) (hd_error (X2 ++ F)) = Units.word_boundary (Units.last_opt m1) (hd_error (X2 ++ [44])))
+    by exact (word_end_local m1 X2 F [44] HF HG).
+  destruct X2 as [|c2 X2'].
+  - (* "of" is all of X *)
+    cbn [app] in *.
+    assert (T : match Units.hsp F with
+                | Some (w, r2) => match Units.match_ci_lit [116; 104; 101] r2 with
+                                  | Some (m2, r3) => if Units.word_boundary (Units.last_opt m2) (hd_error r3) then Some (m1 ++ w ++ m2, r3) else None
+                                  | None => None end
+                | None => None end = None).
+    { destruct (Units.hsp F) as [[w r2]|] eqn:Eh; [|reflexivity].
+      assert (Hr2 : inertF r2).
+      { unfold inertF2 in HF2. unfold Units.hsp in Eh. change (Units.span Units.is_hsp F) with (span is_hsp F) in Eh.
+        destruct (span is_hsp F) as [w' r'] eqn:Es. destruct w'; [discriminate Eh|]. inversion Eh; subst. exact HF2. }
+      destruct (Units.match_ci_lit [116; 104; 101] r2) as [[m2 r3]|] eqn:E2; [|reflexivity]. exfalso.
+      destruct (match_ci_local _ Wthe [] r2 m2 r3 Hr2 E2) as [X2' [EX' _]]. destruct (match_ci_word _ _ _ _ E2) as [W2 _].
+      symmetry in EX'. apply app_eq_nil in EX' as [EX' _]. subst m2. inversion W2. }
+    rewrite T. rewrite Hb. cbn [Units.hsp Units.span] in H.
+    destruct (Units.word_boundary (Units.last_opt m1) (hd_error [44])); [discriminate H | reflexivity].
+  - assert (Hl2 : is_ws (last (c2 :: X2') 0) = false) by (rewrite EX in Hl; rewrite last_app_r in Hl by discriminate; exact Hl).
+    destruct (hsp_local (c2 :: X2') F ltac:(discriminate) Hl2) as [HhF Hh3].
+    destruct (hsp_local (c2 :: X2') [44] ltac:(discriminate) Hl2) as [HhG _].
+    rewrite HhF. rewrite HhG in H.
+    destruct (Units.hsp (c2 :: X2')) as [[w X3]|] eqn:Eh.
+    + destruct (Hh3 w X3 eq_refl) as [Hne3 Hl3].
+      destruct (Units.match_ci_lit [116; 104; 101] (X3 ++ F)) as [[m2 r3]|] eqn:E2.
+      * destruct (match_ci_local _ Wthe X3 F m2 r3 HF E2) as [X4 [EX3 Er3]]. destruct (match_ci_word _ _ _ _ E2) as [W2 _].
+        subst r3. rewrite EX3 in H. rewrite <- app_assoc in H. rewrite (UnitsTail.match_ci_lit_complete _ m2 W2 (X4 ++ [44])) in H.
+        pose proof (word_end_local m2 X4 F [44] HF HG) as Hb2. unfold word_end_ok in Hb2. rewrite Hb2.
+        destruct (Units.word_boundary (Units.last_opt m2) (hd_error (X4 ++ [44]))); [discriminate H|].
+        rewrite Hb. destruct (Units.word_boundary (Units.last_opt m1) (hd_error ((c2 :: X2') ++ [44]))); [discriminate H | reflexivity].
+      * rewrite Hb.
+        destruct (Units.match_ci_lit [116; 104; 101] (X3 ++ [44])) as [[m2' r3']|];
+          [destruct (Units.word_boundary (Units.last_opt m2') (hd_error r3')); [discriminate H|]|];
+          (destruct (Units.word_boundary (Units.last_opt m1) (hd_error ((c2 :: X2') ++ [44]))); [discriminate H | reflexivity]).
+    + rewrite Hb. destruct (Units.word_boundary (Units.last_opt m1) (hd_error ((c2 :: X2') ++ [44]))); [discriminate H | reflexivity].
+Qed.
+
+(** ** Locality of the unit scanner *)
+Lemma wf_tail_cons p ps : UnitsScan.wf_tail (p :: ps) = true -> UnitsScan.wf_tail ps = true.
+Proof.
+  destruct p as [a|]; cbn [UnitsScan.wf_tail]; intro H.
+  - apply andb_true_iff in H. tauto.
+  - destruct ps as [|[a|] r]; [discriminate H | exact H | discriminate H].
+Qed.
+
+Lemma Matches_chars ps m : UnitsRef.Matches ps m -> UnitsScan.wf_tail ps = true ->
+  forallb (fun c => Units.is_word c || is_ws c) m = true.
+Proof.
+  induction 1 as [|a c ps v Hl HM IH | w ps v Hne Hws HM IH]; intro Wf; [reflexivity | |].
+  - cbn [forallb]. pose proof (wf_tail_cons _ _ Wf) as Wf'. cbn [UnitsScan.wf_tail] in Wf. apply andb_true_iff in Wf as [Hg _].
+    destruct (UnitsScan.good_class_spec a c Hg Hl) as [Hw _]. rewrite Hw, (IH Wf'). reflexivity.
+  - rewrite forallb_app. apply andb_true_iff. split; [|exact (IH (wf_tail_cons _ _ Wf))].
+    apply (forallb_impl Units.is_ws); [|exact Hws]. intros x Hx. change (is_ws x) with (Units.is_ws x). rewrite Hx, orb_true_r. reflexivity.
+Qed.
+
+(** A match that runs past the end of [X] into whitespace: [X] is spelled by
+    the pieces before one of the alternative's [\s+]. *)
+Lemma Matches_split ps m : UnitsRef.Matches ps m -> UnitsScan.wf_tail ps = true ->
+  forall (X : str) (c : N) (f : str), m = X ++ c :: f -> X <> [] -> is_ws (last X 0) = false -> is_ws c = true ->
+  exists p1 p2, ps = p1 ++ PWs :: p2 /\ UnitsRef.Matches p1 X.
+Proof.
+  induction 1 as [|a c0 ps v Hl HM IH | w ps v Hne Hws HM IH]; intros Wf X c f E Hn Hlast Hc.
+  - destruct X; discriminate E.
+  - destruct X as [|x0 X']; [contradiction|]. cbn [app] in E. inversion E; subst x0. clear E.
+    pose proof (wf_tail_cons _ _ Wf) as Wf'.
+    destruct X' as [|x1 X''].
+    + cbn [app] in H1. subst v. (* the next piece must be the whitespace *)
+      destruct ps as [|[a'|] ps'].
+      * inversion HM.
+      * exfalso. inversion HM as [|a'' c' ps'' v' Hl' _|]; subst. cbn [UnitsScan.wf_tail] in Wf'. apply andb_true_iff in Wf' as [Hg _].
+        destruct (UnitsScan.good_class_spec a' c Hg Hl') as [_ Hnw]. change (is_ws c) with (Units.is_ws c) in Hc. congruence.
+      * exists [PLit a], ps'. split; [reflexivity|]. constructor; [exact Hl | constructor].
+    + assert (Hl2 : is_ws (last (x1 :: X'') 0) = false) by exact Hlast.
+      destruct (IH Wf' (x1 :: X'') c f H1 ltac:(discriminate) Hl2 Hc) as [p1 [p2 [Ep HM1]]].
+      exists (PLit a :: p1), p2. split; [rewrite Ep; reflexivity | constructor; assumption].
+  - pose proof (wf_tail_cons _ _ Wf) as Wf'.
+    apply app_eq_app in E as [l [[Ew Ev] | [EX Ev]]].
+    + (* X is inside the whitespace run: impossible *)
+      exfalso. rewrite Ew in Hws. rewrite forallb_app in Hws. apply andb_true_iff in Hws as [HX _].
+      destruct (exists_last Hn) as [Y [e EY]]. rewrite EY in *. rewrite last_last in Hlast.
+      rewrite forallb_app in HX. apply andb_true_iff in HX as [_ He]. cbn [forallb] in He. apply andb_true_iff in He as [He _].
+      change (is_ws e) with (Units.is_ws e) in Hlast. congruence.
+    + destruct l as [|l0 l'].
+      * exfalso. rewrite app_nil_r in EX. subst X.
+        destruct (exists_last Hn) as [Y [e EY]]. rewrite EY in *. rewrite last_last in Hlast.
+        rewrite forallb_app in Hws. apply andb_true_iff in Hws as [_ He]. cbn [forallb] in He. apply andb_true_iff in He as [He _].
+        change (is_ws e) with (Units.is_ws e) in Hlast. congruence.
+      * assert (Hl2 : is_ws (last (l0 :: l') 0) = false) by (rewrite EX in Hlast; rewrite last_app_r in Hlast by discriminate; exact Hlast).
+        destruct (IH Wf' (l0 :: l') c f Ev ltac:(discriminate) Hl2 Hc) as [p1 [p2 [Ep HM1]]].
+        exists (PWs :: p1), p2. split; [rewrite Ep; reflexivity|]. rewrite EX. constructor; assumption.
+Qed.
+
+Lemma ws_prefixes_in p1 p2 : In p1 (ws_prefixes (p1 ++ PWs :: p2)).
+Proof.
+  induction p1 as [|[a|] p1 IH]; cbn [app ws_prefixes].
+  - left. reflexivity.
+  - apply in_map. exact IH.
+  - right. apply in_map. exact IH.
+Qed.
+
+Lemma known_unit_local (X F : str) : X <> [] -> is_ws (last X 0) = false -> inertF F ->
+  Units.known_unit (X ++ [44]) = None -> not_unit_prefix X = true -> Units.known_unit (X ++ F) = None.
+Proof.
+  intros Hn Hl HF Hprobe Hpre. destruct (Units.known_unit (X ++ F)) as [[m r]|] eqn:E; [|reflexivity]. exfalso.
+  unfold Units.known_unit in E.
+  destruct (UnitsScan.scan_alts_sound known_unit_boundary unit_regex_alts _ m r UnitsTable.table_boundary E) as [pa [Hpa [HM [Ex Hbd]]]].
+  pose proof UnitsTable.table_scan_ok as Tok. pose proof Tok as Tok2. unfold UnitsScan.scan_table_ok in Tok2.
+  apply andb_true_iff in Tok2 as [Twf _]. rewrite forallb_forall in Twf. specialize (Twf pa Hpa).
+  destruct (UnitsScan.wf_alt_parts pa Twf) as [Hpne [Wf Hlast]].
+  apply app_eq_app in Ex as [l [[EX Er] | [Em EF]]].
+  - (* the match lies inside X: it would also be found on the probe *)
+    assert (Hb : Units.word_boundary (Units.last_opt m) (hd_error (l ++ [44])) = true).
+    { pose proof (word_end_local m l F [44] HF ltac:(reflexivity)) as W. unfold word_end_ok in W. rewrite <- W, <- Er. exact Hbd. }
+    pose proof (UnitsScan.scan_alts_finds unit_regex_alts pa m (l ++ [44]) Tok Hpa HM Hb) as Fd.
+    unfold Units.known_unit in Hprobe. rewrite UnitsTable.table_boundary in Hprobe. rewrite EX, <- app_assoc in Hprobe.
+    rewrite Fd in Hprobe. discriminate Hprobe.
+  - destruct l as [|c l'].
+    + (* m = X exactly: same as above with l = [] *)
+      rewrite app_nil_r in Em. subst m. cbn [app] in EF. subst r.
+      assert (Hb : Units.word_boundary (Units.last_opt X) (hd_error ([] ++ [44])) = true).
+      { pose proof (word_end_local X [] F [44] HF ltac:(reflexivity)) as W. unfold word_end_ok in W. cbn [app] in W. cbn [app]. rewrite <- W. exact Hbd. }
+      pose proof (UnitsScan.scan_alts_finds unit_regex_alts pa X ([] ++ [44]) Tok Hpa HM Hb) as Fd.
+      unfold Units.known_unit in Hprobe. rewrite UnitsTable.table_boundary in Hprobe. cbn [app] in Fd. rewrite Fd in Hprobe. discriminate Hprobe.
+    + (* the match runs past X: its next character is whitespace, and X spells a unit prefix *)
+      pose proof (Matches_chars pa m HM Wf) as Hch. rewrite Em in Hch. rewrite forallb_app in Hch.
+      apply andb_true_iff in Hch as [_ Hch]. cbn [forallb] in Hch. apply andb_true_iff in Hch as [Hc _].
+      assert (Hcw : is_ws c = true).
+      { rewrite EF in HF. cbn [app inertF] in HF. rewrite HF in Hc. exact Hc. }
+      destruct (Matches_split pa m HM Wf X c l' Em Hn Hl Hcw) as [p1 [p2 [Ep HM1]]].
+      unfold not_unit_prefix in Hpre. rewrite forallb_forall in Hpre. specialize (Hpre pa Hpa).
+      rewrite forallb_forall in Hpre. rewrite Ep in Hpre. specialize (Hpre p1 (ws_prefixes_in p1 p2)).
+      apply negb_true_iff in Hpre. unfold matches_all in Hpre.
+      pose proof (UnitsScan.match_pieces_complete p1 X HM1 []) as Hin. rewrite app_nil_r in Hin.
+      assert (Hex : existsb (fun p => is_nil (snd p)) (Units.match_pieces known_unit_ci p1 X) = true).
+      { apply existsb_exists. exists (X, []). split; [exact Hin | reflexivity]. }
+      rewrite Hex in Hpre. discriminate Hpre.
+Qed.
+
+(** What follows a name's first segment / a whole name starts, after horizontal space, with no word character. *)
+Lemma word_is_edge c : Units.is_word c = true -> naked_edge c = true.
+Proof.
+  intro H. unfold naked_edge. apply andb_true_iff. split; apply negb_true_iff.
+  - destruct (naked_special c) eqn:E; [|reflexivity]. unfold naked_special in E. apply UnitsScan.memN_In in E.
+    assert (T : forallb (fun x => negb (Units.is_word x)) [34; 39; 44; 58; 61; 47; 40; 41; 123; 125] = true) by (vm_compute; reflexivity).
+    rewrite forallb_forall in T. specialize (T c E). rewrite H in T. discriminate T.
+  - destruct (is_ws c) eqn:E; [|reflexivity]. unfold is_ws, Units.is_ws in E. apply UnitsScan.memN_In in E.
+    assert (T : forallb (fun x => negb (Units.is_word x)) ws_chars = true) by (vm_compute; reflexivity).
+    rewrite forallb_forall in T. specialize (T c E). rewrite H in T. discriminate T.
+Qed.
+
+Lemma name_followb_inert k : name_followb k = true -> inertF2 k.
+Proof.
+  intro H. apply name_followb_stops in H. unfold inertF2. destruct (snd (span is_hsp k)) as [|c t]; [exact I|].
+  cbn [stops inertF] in *. destruct (Units.is_word c) eqn:E; [|reflexivity].
+  unfold seg_start in H. rewrite (word_is_edge c E) in H. discriminate H.
+Qed.
+
+Lemma after_first_inert first more (k : str) : more_ok more = true -> adj_ok first more = true ->
+  is_naked first = true -> name_followb k = true -> inertF2 (print_more more ++ k).
+Proof.
+  intros Hm Ha Hn Hk. destruct more as [|[w sg] more]; [exact (name_followb_inert k Hk)|].
+  cbn [more_ok forallb fst snd] in Hm. apply andb_true_iff in Hm as [Hw _]. apply andb_true_iff in Hw as [Hw Hsg].
+  cbn [adj_ok] in Ha. apply andb_true_iff in Ha as [Hadj _]. rewrite Hn in Hadj. cbn [andb] in Hadj. apply negb_true_iff in Hadj.
+  destruct (print_seg_head sg Hsg) as [c [r [E [_ Hop]]]]. specialize (Hop Hadj).
+  cbn [print_more]. rewrite E. repeat rewrite <- app_assoc. cbn [app]. unfold inertF2.
+  rewrite (span_app is_hsp w (c :: _) Hw) by (destruct Hop as [->|[->| ->]]; reflexivity). cbn [snd inertF].
+  destruct Hop as [->|[->| ->]]; vm_compute; reflexivity.
+Qed.
+
 (** ** References *)
 Lemma p_number_stops (r : str) o b : stops is_digit r -> p_number (mkSt r o b) = None.
 Proof.
@@ -123,13 +458,14 @@ Proof.
 Qed.
 
 Lemma p_amount_name_fails nm (k : str) fuel o b :
-  name_ok nm = true -> ref_name_ok nm = true ->
+  name_ok nm = true -> ref_name_ok nm = true -> name_followb k = true ->
   p_amount fuel (mkSt (print_name nm ++ k) o b) = Fail.
 Proof.
-  intros Hok Href. destruct nm as [first more]. unfold name_ok in Hok. cbn [nm_first nm_more] in Hok.
-  apply andb_true_iff in Hok as [Hf _]. unfold ref_name_ok in Href. cbn [nm_first] in Href.
+  intros Hok Href Hk. destruct nm as [first more]. unfold name_ok in Hok. cbn [nm_first nm_more] in Hok.
+  apply andb_true_iff in Hok as [Hok Hadj]. apply andb_true_iff in Hok as [Hf Hmore].
+  unfold ref_name_ok in Href. cbn [nm_first] in Href.
   unfold print_name. cbn [nm_first nm_more].
-  destruct first as [q ms x | bs]; cbn [print_seg seg_ok] in *.
+  destruct first as [q ms x | bs | x]; cbn [print_seg seg_ok] in *.
   - assert (Hq : opener q) by (apply orb_true_iff in Hf as [H|H]; apply N.eqb_eq in H; subst; [left | right; left]; reflexivity).
     unfold print_quoted. cbn [app].
     unfold p_amount, p_proportion. cbn [rest].
@@ -146,6 +482,75 @@ Proof.
     destruct (span is_hsp (print_bparts bs ++ 125 :: print_more more ++ k)) as [w' r0] eqn:Es. cbn [snd] in Href.
     unfold adv. cbn [off bad]. rewrite (p_number_stops r0 _ b (stopsb_stops _ _ Href)).
     unfold p_implicit. rewrite (p_number_none 123 _ o b eq_refl). reflexivity.
+  - (* naked first chunk: no number, no remainder word *)
+    apply andb_true_iff in Href as [Hd Hrem].
+    destruct (naked_textb_text x Hf) as [c0 [A' [Ex [He [_ Hl]]]]].
+    assert (Hd0 : is_digit c0 = false) by (rewrite Ex in Hd; apply negb_true_iff in Hd; exact Hd).
+    assert (Hr : sc_remainder (x ++ print_more more ++ k) = None).
+    { apply sc_remainder_local; [rewrite Ex; discriminate | exact Hl | exact (after_first_inert (SN x) more k Hmore Hadj eq_refl Hk) |].
+      destruct (sc_remainder (x ++ [44])); [discriminate Hrem | reflexivity]. }
+    rewrite <- app_assoc. unfold p_amount, p_proportion. cbn [rest]. rewrite Hr. rewrite Ex. cbn [app].
+    rewrite (p_number_none c0 _ o b Hd0).
+    assert (H123 : c0 <> 123) by (intro; subst c0; discriminate He).
+    unfold p_explicit. rewrite (eat_miss 123 c0 _ o b H123).
+    unfold p_implicit. rewrite (p_number_none c0 _ o b Hd0). reflexivity.
+Qed.
+
+(** The text after an amount, when the name starts with a naked chunk. *)
+Lemma edge_mid c : naked_edge c = true -> naked_mid c = true.
+Proof.
+  unfold naked_edge, naked_mid. intro H. apply andb_true_iff in H as [Hs Hw]. rewrite Hs. cbn [andb].
+  apply negb_true_iff in Hw. destruct (c =? 10) eqn:E1; [apply N.eqb_eq in E1; subst c; discriminate Hw|].
+  destruct (c =? 13) eqn:E2; [apply N.eqb_eq in E2; subst c; discriminate Hw | reflexivity].
+Qed.
+
+Lemma naked_fol am (w X F : str) : naked_textb X = true -> naked_after_amt_ok am w X = true -> inertF2 F ->
+  forallb is_hsp w = true ->
+  exists c X', X = c :: X' /\ fol w c (X' ++ F) /\ (needs_bnd am = true -> UnitsRef.boundary_after (w ++ c :: X' ++ F)).
+Proof.
+  intros Hx Hok HF2 Hw. destruct (naked_textb_text X Hx) as [c [X' [EX [He [_ Hl]]]]]. subst X.
+  exists c, X'. split; [reflexivity|]. pose proof (inertF2_inertF F HF2) as HF.
+  cbn [naked_after_amt_ok] in Hok.
+  apply andb_true_iff in Hok as [Hok Hb]. apply andb_true_iff in Hok as [Hok Hpre]. apply andb_true_iff in Hok as [Hok Hu].
+  apply andb_true_iff in Hok as [Hok Hthe]. apply andb_true_iff in Hok as [Hok Hp]. apply andb_true_iff in Hok as [Hok H42].
+  apply andb_true_iff in Hok as [Hok H37]. apply andb_true_iff in Hok as [Hd H46].
+  apply negb_true_iff in Hd, H46, H37, H42. apply N.eqb_neq in H46, H37, H42.
+  assert (Hne : c :: X' <> []) by discriminate.
+  split.
+  - constructor.
+    + destruct (is_hsp c) eqn:E; [|reflexivity]. unfold naked_edge in He. rewrite (hsp_is_ws c E), andb_false_r in He. discriminate He.
+    + exact Hd.
+    + exact H46.
+    + intro E. subst c. discriminate He.
+    + exact H37.
+    + exact H42.
+    + change (c :: X' ++ F) with ((c :: X') ++ F). apply preposition_local; [exact Hne | exact Hl | exact HF2 |].
+      destruct (Units.preposition ((c :: X') ++ [44])); [discriminate Hp | reflexivity].
+    + change (c :: X' ++ F) with ((c :: X') ++ F). destruct kw_words as [_ [_ [_ [_ [_ [_ Wthe]]]]]].
+      apply (wb_transfer _ (c :: X') F [44] Wthe HF ltac:(reflexivity)).
+      unfold the_probe in Hthe. destruct (with_boundary (Units.match_ci_lit [116; 104; 101] ((c :: X') ++ [44]))); [discriminate Hthe | reflexivity].
+    + change (c :: X' ++ F) with ((c :: X') ++ F). apply known_unit_local; [exact Hne | exact Hl | exact HF | | exact Hpre].
+      destruct (Units.known_unit ((c :: X') ++ [44])); [discriminate Hu | reflexivity].
+  - intro Hnb. rewrite Hnb in Hb. cbn [negb orb] in Hb. destruct w as [|h w'].
+    + cbn [is_nil negb orb app] in *. apply negb_true_iff in Hb. exact Hb.
+    + apply boundary_hsp_then; [exact Hw | discriminate].
+Qed.
+
+Lemma name_fol am (w : str) nm (k : str) : name_ok nm = true -> after_amt_ok am w nm = true -> name_followb k = true ->
+  forallb is_hsp w = true ->
+  exists c R, print_name nm ++ k = c :: R /\ fol w c R /\ (needs_bnd am = true -> UnitsRef.boundary_after (w ++ c :: R)).
+Proof.
+  intros Hn Haft Hk Hw. destruct nm as [first more]. unfold name_ok in Hn. cbn [nm_first nm_more] in Hn.
+  apply andb_true_iff in Hn as [Hn Hadj]. apply andb_true_iff in Hn as [Hf Hm].
+  unfold after_amt_ok in Haft. cbn [nm_first] in Haft. unfold print_name. cbn [nm_first nm_more].
+  destruct first as [q ms x | bs | X].
+  - destruct (print_seg_head (SQ q ms x) Hf) as [c [r [E [_ Hop]]]]. specialize (Hop eq_refl). rewrite E.
+    exists c, ((r ++ print_more more) ++ k). split; [reflexivity|]. split; [exact (opener_fol w c _ Hop) | intros _; exact (boundary_hsp_opener w c _ Hw Hop)].
+  - destruct (print_seg_head (SB bs) Hf) as [c [r [E [_ Hop]]]]. specialize (Hop eq_refl). rewrite E.
+    exists c, ((r ++ print_more more) ++ k). split; [reflexivity|]. split; [exact (opener_fol w c _ Hop) | intros _; exact (boundary_hsp_opener w c _ Hw Hop)].
+  - cbn [seg_ok] in Hf. cbn [print_seg].
+    destruct (naked_fol am w X (print_more more ++ k) Hf Haft (after_first_inert (SN X) more k Hm Hadj eq_refl Hk) Hw) as [c [X' [EX [Fo Hb]]]].
+    exists c, (X' ++ print_more more ++ k). split; [rewrite EX, <- app_assoc; reflexivity | split; assumption].
 Qed.
 
 Definition ref_val (a : option (amt * str)) (nm : name) (o : N) : aexpr :=
@@ -155,24 +560,25 @@ Definition ref_val (a : option (amt * str)) (nm : name) (o : N) : aexpr :=
   end.
 
 Theorem reference_roundtrip a nm (k : str) fuel o b :
-  expr_ok (XRef a nm) = true -> name_followb k = true -> (name_cost nm <= fuel)%nat ->
+  expr_ok (XRef a nm) = true -> name_followb k = true -> (name_cost nm + ref_amt_cost a <= fuel)%nat ->
   p_reference fuel (mkSt (print_expr (XRef a nm) ++ k) o b) =
   Got (value_expr (XRef a nm) o) (mkSt k (o + len (print_expr (XRef a nm))) b).
 Proof.
-  intros Hok Hk Hc. destruct a as [[am w]|]; cbn [expr_ok print_expr value_expr] in *.
-  - apply andb_true_iff in Hok as [Hok Hn]. apply andb_true_iff in Hok as [Ha Hw].
-    destruct (print_name_head nm Hn) as [c [r [E Hc']]].
+  intros Hok Hk Hc0. assert (Hc : (name_cost nm <= fuel)%nat) by (generalize dependent (name_cost nm); intros; lia).
+  destruct a as [[am w]|]; cbn [expr_ok print_expr value_expr ref_amt_cost] in *.
+  - apply andb_true_iff in Hok as [Hok Haft]. apply andb_true_iff in Hok as [Hok Hn]. apply andb_true_iff in Hok as [Ha Hw].
+    destruct (name_fol am w nm k Hn Haft Hk Hw) as [c [R [E [Fo Hb]]]].
     unfold p_reference. repeat rewrite <- app_assoc.
     assert (Ea : p_amount fuel (mkSt (print_amt am ++ w ++ print_name nm ++ k) o b) =
                  Got (amt_val am) (mkSt (w ++ print_name nm ++ k) (o + len (print_amt am)) b)).
-    { rewrite E. cbn [app]. apply (amount_roundtrip am w c _ o b fuel Ha Hw Hc'). unfold name_cost in Hc. lia. }
+    { rewrite E. apply (amount_roundtrip am w c R o b fuel Ha Hw Fo Hb); [unfold name_cost in Hc; lia | generalize dependent (name_cost nm); generalize dependent (amt_cost am); intros; lia]. }
     rewrite Ea.
-    assert (Hstop : stops is_hsp (print_name nm ++ k)) by (rewrite E; exact (opener_not_hsp c Hc')).
+    assert (Hstop : stops is_hsp (print_name nm ++ k)) by (rewrite E; exact (f_hsp _ _ _ Fo)).
     rewrite (skip_hsp_run w _ _ b Hw Hstop).
     rewrite (name_roundtrip nm fuel k _ b Hn Hk Hc). cbn [off].
     f_equal. f_equal. rewrite !len_app. lia.
   - apply andb_true_iff in Hok as [Hn Href]. cbn [app].
-    unfold p_reference. rewrite (p_amount_name_fails nm k fuel o b Hn Href).
+    unfold p_reference. rewrite (p_amount_name_fails nm k fuel o b Hn Href Hk).
     rewrite (name_roundtrip nm fuel k o b Hn Hk Hc). reflexivity.
 Qed.
 
@@ -239,7 +645,7 @@ Inductive num_shape (T : str) (cst : nat) : Prop :=
 | ShapeWhole : naked_text T -> forallb amt_char T = true -> num_shape T cst
 | ShapeWhole2 : naked_text T -> num_shape T cst
 | ShapeBraced (bs : list bpart) (TT : str) : T = print_braced bs ++ TT -> bparts_ok bs = true ->
-    seg_cost (SB bs) = cst ->
+    S (seg_cost (SB bs)) = cst ->
     (TT = [] \/ exists wp Q : str, TT = wp ++ Q /\ forallb is_hsp wp = true /\ naked_text Q) -> num_shape T cst
 | ShapeSlash (Y w' R : str) : T = Y ++ w' ++ 47 :: R -> naked_text Y -> forallb is_hsp w' = true -> num_shape T cst.
 
@@ -313,34 +719,6 @@ Proof.
   rewrite forallb_forall in T. exact (T c H).
 Qed.
 
-Lemma hsp_raw_ok_b (w : str) : forallb is_hsp w = true -> forallb raw_ok_b w = true.
-Proof.
-  apply forallb_impl. intros x H. unfold is_hsp, Units.is_hsp in H.
-  apply orb_true_iff in H as [H|H]; apply N.eqb_eq in H; subst; reflexivity.
-Qed.
-
-Lemma explicit_print t w0 u w1 :
-  hsp_run w0 = true -> hsp_run w1 = true ->
-  match u with Some (sp, q, x) => hsp_run sp && ((q =? 34) || (q =? 39)) && forallb (unit_char q) x | None => true end = true ->
-  print_bparts (explicit_bparts t w0 u w1) = w0 ++ ntext_str t ++ unit_text u ++ w1.
-Proof.
-  intros Hw0 Hw1 Hu.
-  assert (HT : forallb raw_ok_b (unit_text u ++ w1) = true).
-  { rewrite forallb_app. apply andb_true_iff. split; [|exact (hsp_raw_ok_b w1 Hw1)]. destruct u as [[[sp q] x]|]; [|reflexivity].
-    apply andb_true_iff in Hu as [Hu Hx]. apply andb_true_iff in Hu as [Hsp Hq]. cbn [unit_text].
-    assert (Hqb : raw_ok_b q = true) by (apply orb_true_iff in Hq as [H|H]; apply N.eqb_eq in H; subst; reflexivity).
-    rewrite forallb_app, (hsp_raw_ok_b sp Hsp). cbn [forallb]. rewrite Hqb, forallb_app. cbn [forallb]. rewrite Hqb.
-    rewrite (forallb_impl (unit_char q) raw_ok_b x); [reflexivity | | exact Hx].
-    intros y Hy. unfold unit_char in Hy. apply andb_true_iff in Hy. tauto. }
-  unfold explicit_bparts, print_bparts. rewrite flat_map_app. cbn [flat_map print_bpart].
-  assert (E0 : flat_map print_bpart (match w0 with [] => [] | _ :: _ => [BStr w0 []] end) = w0).
-  { destruct w0 as [|h w0']; [reflexivity|]. cbn [flat_map print_bpart]. rewrite app_nil_r.
-    exact (print_chars_raw raw_ok_b _ (hsp_raw_ok_b _ Hw0)). }
-  rewrite E0. f_equal. f_equal.
-  destruct (unit_text u ++ w1) as [|h T'] eqn:ET; [reflexivity|]. cbn [flat_map print_bpart]. rewrite app_nil_r.
-  exact (print_chars_raw raw_ok_b _ HT).
-Qed.
-
 Lemma amt_shape am : amt_ok am = true -> num_shape (print_amt am) (amt_cost am).
 Proof.
   intro Hok. destruct (amt_ok_parts am Hok) as [Hn HT]. unfold print_amt.
@@ -379,10 +757,66 @@ Qed.
 
 (** Where a NAME tried on a reference text stops: at the end of the whole
     reference, or before the "/" of a fraction. *)
-Lemma naked_text_head_not_hsp (Q X : str) : naked_text Q -> stops is_hsp (Q ++ X).
+Lemma naked_text_textb (A : str) : naked_text A -> naked_textb A = true.
 Proof.
-  intros [c0 [A' [-> [He _]]]]. cbn [app stops]. destruct (is_hsp c0) eqn:E; [|reflexivity].
-  unfold naked_edge in He. rewrite (hsp_is_ws c0 E), andb_false_r in He. discriminate He.
+  intros [c0 [A' [-> [He [Hm Hl]]]]]. unfold naked_textb. rewrite He, Hm, Hl. reflexivity.
+Qed.
+
+(** The text of an amount followed by a name, read as ONE name: the naked
+    amount text is its first segment. *)
+Lemma p_name_glued (first' : seg) (more' : list (str * seg)) (T : str) fuel (k : str) o b :
+  T = print_seg first' ++ print_more more' ->
+  seg_ok first' = true -> more_ok more' = true -> adj_ok first' more' = true -> name_followb k = true ->
+  (name_cost (mkName first' more') <= fuel)%nat ->
+  exists v, p_name fuel (mkSt (T ++ k) o b) = Got v (mkSt k (o + len T) b).
+Proof.
+  intros ET Hf Hm Ha Hk Hc. eexists. unfold p_name. rewrite ET, <- app_assoc.
+  rewrite (p_string_name more' first' fuel true k o b Hf Hm Ha Hk (or_introl eq_refl) Hc). reflexivity.
+Qed.
+
+(** Naked amount text, horizontal space, name: ONE name.  When the name itself
+    starts with a naked chunk, amount text, space and chunk are one naked chunk. *)
+Definition glue (A w : str) (first : seg) (more : list (str * seg)) : seg * list (str * seg) :=
+  match first with SN X => (SN (A ++ w ++ X), more) | _ => (SN A, (w, first) :: more) end.
+
+Lemma naked_text_join (A w X : str) : naked_text A -> forallb is_hsp w = true -> naked_text X -> naked_text (A ++ w ++ X).
+Proof.
+  intros [c0 [A' [-> [He [Hm Hl]]]]] Hw [c1 [X' [-> [He1 [Hm1 Hl1]]]]].
+  exists c0, (A' ++ w ++ c1 :: X'). repeat split; [exact He | |].
+  - rewrite forallb_app, Hm, forallb_app, (forallb_impl _ _ _ hsp_naked_mid Hw). cbn [forallb]. rewrite (edge_mid c1 He1), Hm1. reflexivity.
+  - change (c0 :: A' ++ w ++ c1 :: X') with ((c0 :: A') ++ w ++ c1 :: X'). rewrite app_assoc, last_app_r by discriminate. exact Hl1.
+Qed.
+
+Lemma glue_ok (A w : str) first more : naked_text A -> forallb is_hsp w = true ->
+  seg_ok first = true -> more_ok more = true -> adj_ok first more = true ->
+  A ++ w ++ print_seg first ++ print_more more = print_seg (fst (glue A w first more)) ++ print_more (snd (glue A w first more))
+  /\ seg_ok (fst (glue A w first more)) = true /\ more_ok (snd (glue A w first more)) = true
+  /\ adj_ok (fst (glue A w first more)) (snd (glue A w first more)) = true
+  /\ is_naked (fst (glue A w first more)) = true
+  /\ (name_cost (mkName (fst (glue A w first more)) (snd (glue A w first more))) <= S (name_cost (mkName first more)))%nat.
+Proof.
+  intros HA Hw Hf Hm Hadj. unfold glue. destruct first as [q ms x | bs | X]; cbn [fst snd].
+  - split; [|split; [|split; [|split; [|split]]]].
+    + cbn [print_seg print_more]. reflexivity.
+    + exact (naked_text_textb A HA).
+    + cbn [more_ok forallb fst snd]. unfold hsp_run. rewrite Hw, Hf. exact Hm.
+    + cbn [adj_ok is_naked andb negb]. exact Hadj.
+    + reflexivity.
+    + unfold name_cost. cbn [nm_first nm_more fold_right snd seg_cost]. lia.
+  - split; [|split; [|split; [|split; [|split]]]].
+    + cbn [print_seg print_more]. reflexivity.
+    + exact (naked_text_textb A HA).
+    + cbn [more_ok forallb fst snd]. unfold hsp_run. rewrite Hw, Hf. exact Hm.
+    + cbn [adj_ok is_naked andb negb]. exact Hadj.
+    + reflexivity.
+    + unfold name_cost. cbn [nm_first nm_more fold_right snd seg_cost]. lia.
+  - cbn [seg_ok] in Hf. split; [|split; [|split; [|split; [|split]]]].
+    + cbn [print_seg]. repeat rewrite <- app_assoc. reflexivity.
+    + cbn [seg_ok]. exact (naked_text_textb _ (naked_text_join A w X HA Hw (naked_textb_text X Hf))).
+    + exact Hm.
+    + destruct more as [|[w1 sg] more']; [reflexivity|]. cbn [adj_ok is_naked] in *. exact Hadj.
+    + reflexivity.
+    + unfold name_cost. cbn [nm_first nm_more seg_cost]. lia.
 Qed.
 
 Lemma p_name_on_reference a nm (k : str) fuel o b :
@@ -392,48 +826,59 @@ Lemma p_name_on_reference a nm (k : str) fuel o b :
        p_name fuel (mkSt (print_expr (XRef a nm) ++ k) o b) = Got v (mkSt (w' ++ 47 :: R) o' b).
 Proof.
   intros Hok Hk Hc. destruct a as [[am w]|]; cbn [expr_ok print_expr ref_amt_cost] in *.
-  - apply andb_true_iff in Hok as [Hok Hn]. apply andb_true_iff in Hok as [Ha Hw].
-    destruct (amt_shape am Ha) as [A B | A | bs TT E Hbs Hcost HTT | Y w' R E HY Hw'].
-    + eexists. left. unfold p_name. repeat rewrite <- app_assoc.
-      rewrite (p_string_naked_name (print_amt am) w nm fuel k o b A Hw Hn Hk) by lia. reflexivity.
-    + eexists. left. unfold p_name. repeat rewrite <- app_assoc.
-      rewrite (p_string_naked_name (print_amt am) w nm fuel k o b A Hw Hn Hk) by lia. reflexivity.
-    + (* explicit quantity: read as a brace group, then on into the name *)
-      destruct fuel as [|f]; [lia|]. destruct nm as [first more].
-      set (nm := mkName first more) in *.
-      assert (F : (seg_cost (SB bs) <= f /\ S (name_cost nm) <= f)%nat).
-      { rewrite <- Hcost in Hc. cbn [seg_cost] in *. generalize dependent (name_cost nm). intros. lia. }
-      destruct F as [F2 F3]. assert (F1 : (name_cost nm <= f)%nat) by (generalize dependent (name_cost nm); intros; lia).
-      pose proof Hn as Hn0. unfold name_ok in Hn. unfold nm in Hn. cbn [nm_first nm_more] in Hn.
-      apply andb_true_iff in Hn as [Hf Hm].
+  - apply andb_true_iff in Hok as [Hok Haft]. apply andb_true_iff in Hok as [Hok Hn]. apply andb_true_iff in Hok as [Ha Hw].
+    destruct nm as [first more]. pose proof Hn as Hn0. unfold name_ok in Hn. cbn [nm_first nm_more] in Hn.
+    apply andb_true_iff in Hn as [Hn Hadj]. apply andb_true_iff in Hn as [Hf Hm].
+    set (NC := name_cost (mkName first more)) in *.
+    destruct (amt_shape am Ha) as [A B | A | bs TT E Hbs Hcst HTT | Y w' R E HY Hw'].
+    + destruct (glue_ok (print_amt am) w first more A Hw Hf Hm Hadj) as [G1 [G2 [G3 [G4 [_ G6]]]]].
+      assert (ET : (print_amt am ++ w) ++ print_name (mkName first more)
+                   = print_seg (fst (glue (print_amt am) w first more)) ++ print_more (snd (glue (print_amt am) w first more))).
+      { unfold print_name. cbn [nm_first nm_more]. rewrite <- G1. repeat rewrite <- app_assoc. reflexivity. }
+      assert (HC : (name_cost (mkName (fst (glue (print_amt am) w first more)) (snd (glue (print_amt am) w first more))) <= fuel)%nat)
+        by (fold NC in G6; lia).
+      destruct (p_name_glued _ _ _ fuel k o b ET G2 G3 G4 Hk HC) as [v Hv].
+      exists v. left. exact Hv.
+    + destruct (glue_ok (print_amt am) w first more A Hw Hf Hm Hadj) as [G1 [G2 [G3 [G4 [_ G6]]]]].
+      assert (ET : (print_amt am ++ w) ++ print_name (mkName first more)
+                   = print_seg (fst (glue (print_amt am) w first more)) ++ print_more (snd (glue (print_amt am) w first more))).
+      { unfold print_name. cbn [nm_first nm_more]. rewrite <- G1. repeat rewrite <- app_assoc. reflexivity. }
+      assert (HC : (name_cost (mkName (fst (glue (print_amt am) w first more)) (snd (glue (print_amt am) w first more))) <= fuel)%nat)
+        by (fold NC in G6; lia).
+      destruct (p_name_glued _ _ _ fuel k o b ET G2 G3 G4 Hk HC) as [v Hv].
+      exists v. left. exact Hv.
+    + (* explicit quantity: a brace group, the optional preposition as a naked chunk, then the name *)
+      rewrite <- Hcst in Hc.
       destruct HTT as [-> | [wp [Q [-> [Hwp HQ]]]]].
-      * eexists. left. unfold p_name. rewrite E. repeat rewrite <- app_assoc.
-        rewrite p_string_unfold. change (print_braced bs) with (print_seg (SB bs)).
-        rewrite (segment_roundtrip (SB bs) _ o b f Hbs F2).
-        cbn [app]. destruct (print_name_head nm Hn0) as [c [r [Eh Hco]]].
-        assert (Hstop : stops is_hsp (print_name nm ++ k)) by (rewrite Eh; exact (opener_not_hsp c Hco)).
-        rewrite (skip_hsp_run w _ _ b Hw Hstop). cbn [fst snd]. unfold print_name, nm. cbn [nm_first nm_more].
-        rewrite <- app_assoc.
-        rewrite (p_string_name more first f k _ b Hf Hm Hk F1).
-        match goal with |- Got _ {| rest := _; off := ?x; bad := _ |} = Got _ {| rest := _; off := ?y; bad := _ |} =>
-          replace x with y by (repeat rewrite len_app; lia) end. reflexivity.
-      * eexists. left. unfold p_name. rewrite E. repeat rewrite <- app_assoc.
-        rewrite p_string_unfold. change (print_braced bs) with (print_seg (SB bs)).
-        rewrite (segment_roundtrip (SB bs) _ o b f Hbs F2).
-        rewrite (skip_hsp_run wp _ _ b Hwp (naked_text_head_not_hsp Q _ HQ)). cbn [fst snd].
-        rewrite (p_string_naked_name Q w nm f k _ b HQ Hw Hn0 Hk F3).
-        match goal with |- Got _ {| rest := _; off := ?x; bad := _ |} = Got _ {| rest := _; off := ?y; bad := _ |} =>
-          replace x with y by (repeat rewrite len_app; lia) end. reflexivity.
-    + eexists. right. exists w', (R ++ w ++ print_name nm ++ k). eexists. split; [exact Hw'|].
+      * destruct (p_name_glued (SB bs) ((w, first) :: more) ((print_amt am ++ w) ++ print_name (mkName first more)) fuel k o b) as [v Hv].
+        -- rewrite E. unfold print_name. cbn [print_seg print_more nm_first nm_more]. repeat rewrite <- app_assoc. reflexivity.
+        -- exact Hbs.
+        -- cbn [more_ok forallb fst snd]. unfold hsp_run in *. rewrite Hw, Hf. exact Hm.
+        -- cbn [adj_ok is_naked andb negb]. exact Hadj.
+        -- exact Hk.
+        -- unfold NC, name_cost in *. cbn [nm_first nm_more fold_right snd] in *. lia.
+        -- exists v. left. exact Hv.
+      * destruct (glue_ok Q w first more HQ Hw Hf Hm Hadj) as [G1 [G2 [G3 [G4 [G5 G6]]]]].
+        destruct (p_name_glued (SB bs) ((wp, fst (glue Q w first more)) :: snd (glue Q w first more))
+                    ((print_amt am ++ w) ++ print_name (mkName first more)) fuel k o b) as [v Hv].
+        -- rewrite E. unfold print_name. cbn [print_seg print_more nm_first nm_more]. rewrite <- G1. repeat rewrite <- app_assoc. reflexivity.
+        -- exact Hbs.
+        -- cbn [more_ok forallb fst snd]. unfold hsp_run in *. rewrite Hwp, G2. exact G3.
+        -- cbn [adj_ok is_naked andb negb]. exact G4.
+        -- exact Hk.
+        -- fold NC in G6. unfold name_cost in *. cbn [nm_first nm_more fold_right snd] in *. lia.
+        -- exists v. left. exact Hv.
+    + eexists. right. exists w', (R ++ w ++ print_name (mkName first more) ++ k). eexists. split; [exact Hw'|].
       unfold p_name. rewrite E. repeat rewrite <- app_assoc. cbn [app].
-      rewrite (p_string_naked_stop Y w' 47 fuel _ o b HY Hw' eq_refl eq_refl) by (unfold name_cost in Hc; lia). reflexivity.
+      rewrite (p_string_naked_stop Y w' 47 fuel _ o b HY Hw' eq_refl eq_refl) by (unfold NC, name_cost in Hc; lia). reflexivity.
   - apply andb_true_iff in Hok as [Hn _]. eexists. left. cbn [app].
     rewrite (name_roundtrip nm fuel k o b Hn Hk) by lia. reflexivity.
 Qed.
 
 Lemma not_open_after_hsp (k : str) o b : expr_followb k = true -> eat 40 (snd (skip_hsp (mkSt k o b))) = None.
 Proof.
-  unfold expr_followb, skip_hsp, opt_hsp. cbn [rest]. destruct (span is_hsp k) as [w r]. cbn [snd].
+  unfold expr_followb, skip_hsp, opt_hsp. cbn [rest]. intro H. apply andb_true_iff in H as [H _]. revert H.
+  destruct (span is_hsp k) as [w r]. cbn [snd].
   destruct r as [|c t]; [reflexivity|]. cbn [stopsb]. intro H. apply negb_true_iff in H.
   apply orb_false_iff in H as [_ H]. apply N.eqb_neq in H. unfold adv. apply eat_miss. exact H.
 Qed.
